@@ -20,6 +20,10 @@ CLAIMED = {
    technique="Lean 4 proof: exactly-once teardown invariant + induction over creation/termination histories of the SessionTeardown model, release lemmas over the PPPoE server model; differential correspondence against the real code; residue/double-stop monitors on the implementation",
    text="Machine-checked theorems (stop_and_cleanup_at_most_once, terminated_holds_nothing, cleanup_idempotent, terminate_tears_down, padt_owner_only, padt_releases, lcp_term_releases) over executable Lean models of pkg/pppoe/teardown.go and the PPPoE server's termination paths for all histories incl. repeated terminations; tied to /repo by differential execution with a loopback RADIUS accounting server and recording callbacks.",
    note="Trusted: Lean kernel + standard axioms; hand-written models validated by the correspondence run; harness and bngdrv. Concurrent terminations modelled as sequential (mutex-protected cleanup). DHCP termination paths are added by checks/c16_dhcp.py when built; the idle-sweep leak is a recorded known finding."),
+ "C11": dict(design="DESIGN.md §7 C11",
+   technique="Lean 4 proof over transition tables REGENERATED from the Go source by a go/ast translator on every run (finite table facts by decide +kernel, induction over event lists generic in the table); differential correspondence of the interpreted automaton against the real LCP/IPCP/IPv6CP state machines; monitor on the real automata",
+   text="Machine-checked theorems (opened_mutual, leaves_opened, reply_echoes_id, ack_repeats_options, nak_rej_only_offending, ipcp_acks_only_assigned, silent_peer_stops) for each of LCP, IPCP, IPv6CP over all event sequences incl. stale timer firings; the transition tables are re-extracted from pkg/pppoe/*.go on every run so the theorems are re-checked against what the code says now; option handling, identifiers and timers are hand-modelled and tied by differential execution.",
+   note="Trusted: Lean kernel + standard axioms; the extractfsm translator (refuses constructs outside its subset; its output is also exercised by the correspondence); hand-written option classifier model; harness and bngdrv-ncp. One event = one atomic step under the automaton's mutex; stale timer callbacks are explicit events."),
 }
 NA_REASON = "not claimed in this revision: model, theorems and correspondence for this property are not built yet (see DESIGN.md §7 for the plan); no check is registered rather than registering a weaker technique"
 m = {
